@@ -94,6 +94,7 @@ def forbidden_tokens(mods):
         src = open(path, encoding='utf-8').read()
         src = re.sub(r'/-.*?-/', lambda m: '\n' * m.group(0).count('\n'), src, flags=re.S)
         src = re.sub(r'--.*', '', src)
+        src = re.sub(r'"(?:[^"\\\n]|\\.)*"', '""', src)   # string literals are data, not code
         for m in pat.finditer(src):
             hits.append('%s:%d: %s' % (mod, src.count('\n', 0, m.start()) + 1, m.group(0).strip()))
     return hits
@@ -192,6 +193,16 @@ def build_driver(log):
     t = time.time()
     rc, out = sh(['lake', 'build', 'driver'], cwd=LEAN, timeout=3600)
     log.write('--- lake build driver (rc=%d, %.1fs)\n%s\n' % (rc, time.time() - t, out[-3000:]))
+    return rc, out
+
+
+def build_cli(log):
+    """the real `packing` binary, from /repo's working tree, into a target dir under /verif"""
+    t = time.time()
+    rc, out = sh(['cargo', 'build', '--release', '--offline', '--quiet', '--bin', 'packing',
+                  '--manifest-path', os.path.join(REPO, 'Cargo.toml'),
+                  '--target-dir', os.path.join(VERIF, 'harness', 'target-repo')], timeout=3600)
+    log.write('--- cargo build packing binary (rc=%d, %.1fs)\n%s\n' % (rc, time.time() - t, out[-4000:]))
     return rc, out
 
 
@@ -338,6 +349,10 @@ def check_property(pid, tier, seed):
         proof = build_proofs(pid, mods, log)
         drc, dout = build_driver(log)
         hrc, hout = build_harness(log)
+        if hrc == 0 and P.get('needs_cli'):
+            crc, cout = build_cli(log)
+            if crc != 0:
+                hrc, hout = crc, 'the packing binary does not build: ' + cout[-1500:]
 
     # imports → which generated files / model modules the theorems are about
     imported = []
@@ -524,6 +539,8 @@ def do_setup():
         print(out.strip())
         rc1, o1 = build_harness(log)
         print('harness build rc=%d' % rc1)
+        rc4, o4 = build_cli(log)
+        print('packing binary build rc=%d' % rc4)
         rc2, o2 = build_driver(log)
         print('driver build rc=%d' % rc2)
         mods = sorted(set(m for p in props.PROPS.values() for m in p['theorems']))
